@@ -968,6 +968,9 @@ class ExcAnalysis:
             return ('truthy', pl, pol)
         if isinstance(cond, ast.Compare) and len(cond.ops) == 1:
             op, lhs, rhs = cond.ops[0], cond.left, cond.comparators[0]
+            if self._place(fn, lhs) is None and self._place(fn, rhs) is not None and \
+                    isinstance(op, (ast.Eq, ast.NotEq, ast.Is, ast.IsNot)):
+                lhs, rhs = rhs, lhs           # symmetric operators: `CONST == x` is `x == CONST`
             pl = self._place(fn, lhs)
             if pl is not None and isinstance(rhs, ast.Constant) and rhs.value is None and \
                     isinstance(op, (ast.Is, ast.IsNot, ast.Eq, ast.NotEq)):
@@ -1227,6 +1230,8 @@ class ExcAnalysis:
                         continue
                     if kind.endswith('-any') and self.flow.enclosing(cnode, (ast.Raise,)) is not None:
                         continue   # formatting an arbitrary value into an exception message: assumed not to raise
+                    if getattr(self, 'skip_edge', None) is not None and self.skip_edge(fn, callee, cnode, kind):
+                        continue   # refuted by another engine (e.g. the stringified value is a decoded JSON value)
                     for (exc, oid), (o, chain) in list(self.escapes[callee.fq].items()):
                         if (exc, oid) in esc or self.caught(fn, cnode, exc):
                             continue
